@@ -75,11 +75,11 @@ func NewEvaluator(params ParameterProvider, evk EvaluationKeySet) (eval *Evaluat
 
 	eval.EvaluationKeySet = evk
 
-	var AutomorphismIndex map[uint64][]uint64
+	// Always allocated: CheckAndGetGaloisKey fills it lazily through a value receiver
+	AutomorphismIndex := make(map[uint64][]uint64)
 
 	if !utils.IsNil(evk) {
 		if galEls := evk.GetGaloisKeysList(); len(galEls) != 0 {
-			AutomorphismIndex = make(map[uint64][]uint64)
 
 			N := p.N()
 			NthRoot := p.RingQ().NthRoot()
@@ -111,10 +111,6 @@ func (eval Evaluator) CheckAndGetGaloisKey(galEl uint64) (evk *GaloisKey, err er
 		}
 	} else {
 		return nil, fmt.Errorf("evaluation key interface is nil")
-	}
-
-	if eval.automorphismIndex == nil {
-		eval.automorphismIndex = map[uint64][]uint64{}
 	}
 
 	if _, ok := eval.automorphismIndex[galEl]; !ok {
@@ -241,12 +237,9 @@ func (eval Evaluator) ShallowCopy() *Evaluator {
 
 	// The map of automorphism indexes is filled lazily by CheckAndGetGaloisKey:
 	// each copy needs its own map (the index tables themselves are read-only).
-	var automorphismIndex map[uint64][]uint64
-	if eval.automorphismIndex != nil {
-		automorphismIndex = make(map[uint64][]uint64, len(eval.automorphismIndex))
-		for galEl, index := range eval.automorphismIndex {
-			automorphismIndex[galEl] = index
-		}
+	automorphismIndex := make(map[uint64][]uint64, len(eval.automorphismIndex))
+	for galEl, index := range eval.automorphismIndex {
+		automorphismIndex[galEl] = index
 	}
 
 	return &Evaluator{
@@ -263,10 +256,10 @@ func (eval Evaluator) ShallowCopy() *Evaluator {
 // and where the temporary buffers are shared. The receiver and the returned evaluators cannot be used concurrently.
 func (eval Evaluator) WithKey(evk EvaluationKeySet) *Evaluator {
 
-	var AutomorphismIndex map[uint64][]uint64
+	// Always allocated: CheckAndGetGaloisKey fills it lazily through a value receiver
+	AutomorphismIndex := make(map[uint64][]uint64)
 
 	if galEls := evk.GetGaloisKeysList(); len(galEls) != 0 {
-		AutomorphismIndex = make(map[uint64][]uint64)
 
 		N := eval.params.N()
 		NthRoot := eval.params.RingQ().NthRoot()
